@@ -3,8 +3,10 @@ import subprocess, os
 def fix(path, pairs, msg, repo='/repo'):
     full = os.path.join(repo, path)
     s = open(full).read()
-    for old, new in pairs:
-        assert s.count(old) == 1, (msg[:40], old[:60], s.count(old))
+    for pr in pairs:
+        old, new = pr[:2]
+        want = pr[2] if len(pr) > 2 else 1      # (old, new, n): the text occurs n times and every occurrence is edited
+        assert s.count(old) == want, (msg[:40], old[:60], s.count(old))
         s = s.replace(old, new)
     open(full, 'w').write(s)
     r = subprocess.run(['/verif/tools/baseline.py', repo], capture_output=True, text=True)
